@@ -16,7 +16,7 @@ import numpy as np
 
 ID = "C09"
 SHARDS = {"quick": 8, "thorough": 16}
-BUDGET = {"quick": 50, "thorough": 420}
+BUDGET = {"quick": 300, "thorough": 1800}
 RULE = ("frames of 1..50 rows x 1..8 columns; unique column names from "
         "[A-Za-z0-9 _-] without leading / trailing blanks; float (12 decades, "
         "negative), integer (full int64) and text columns (commas, double quotes, "
